@@ -100,11 +100,11 @@ CHECKS.update({
 CHECKS.update({
  "C13": dict(text="Coq proof that in the Alive model every deletion route (del of a cells or space tree, loss of a base member or base relation, ItemSpace discard) leaves everything inside the deleted "
                   "object and every derived copy without a definer dead, with no container, base list, value or dependency listing mentioning a dead object, and that only the deleted-object error "
-                  "answers a dead handle, for all histories; tied to /repo on every run by replaying generated histories and comparing all handles, containers, values and the trace graph inside "
+                  "answers a dead handle, and that nothing outside that closure dies (a derived cells survives iff a definer is left; acyclic inheritance graph in every reachable state), for all histories; tied to /repo on every run by replaying generated histories and comparing all handles, containers, values and the trace graph inside "
                   "Coq, plus an implementation-only oracle including an edit-only replay differential.",
              note="trusted: hand-written Alive/Model.v, harness drivers/alive.py, Alive/Check.v; not modelled: C3 order, formulas (function of the name), space-level references, renaming, input values, "
                   "uncached cells (witnesses/corpus cases are (P)-only); ItemSpaces nested in ItemSpaces with shared precedents (harness/alivenest.py) are a (P)-only case class outside the model: "
-                  "must-die lists, deep reachability audit and edit-only replay differential on the implementation; no recorded defect is avoided any more (D14 C13a C13c C13e D3 D21 D22 D23 repaired in /repo); NewCells whose definer depends on the C3 order is not drawn (not modelled); partial: alive_untouched for derived cells and remove_bases",
+                  "must-die lists, deep reachability audit and edit-only replay differential on the implementation; no recorded defect is avoided any more (D14 C13a C13c C13e D3 D21 D22 D23 repaired in /repo); NewCells whose definer depends on the C3 order is not drawn (not modelled); the ItemSpace part of the closure is stated with the model's dyn_roots/subs_of sets",
              technique="Coq invariant induction over fold_left step + vm_compute correspondence + implementation oracle (edit-only replay)", design="6/C13"),
  "C19": dict(text="Coq proof over a Gallina model of the model registry (dict, per-model names, the two AutoNamer counters, new/rename/_rename_samename/close/read/cur_model) that for all operation "
                   "sequences the registry maps unique valid names to the model of that name, no operation but close removes a model, a clashing model keeps its identity under <name>_BAKn, close "
